@@ -300,8 +300,8 @@ impl PhoneticSuggestion {
                         }
                         selected.push_str(suffix);
 
-                        // Save this for future reuse.
-                        selections.insert(string.word().to_string(), selected.to_string());
+                        // The first (longest) base with a remembered selection wins.
+                        break;
                     }
                 }
             }
